@@ -23,6 +23,7 @@
    Three switches stand for the three defects the property text names:
      failed_start_shares_session  (variant of the second) connClosed filters by a number advanced only when an
                              established session is closed: a failed Start's notification hits the next session
+     close_takes_srv_result  close() waits for the server loop on srvErrC, the channel Run() receives from
      cfg_ok_unsent / cfg_hookerr_unsent / cfg_reject_unsent   Configure returns without handing its result
                              to Start on that path (accepted / hook failed / mask refused): phase AwaitLost
      wait_cfg_unguarded      Start's wait for the configuration result is not released by a lost connection
@@ -128,6 +129,47 @@ Theorem C16_wait_returns_after_loss : forall sw s,
   ph s' = Idle /\ waiters s' = [] /\ started s' = false /\ sconn s' = CNone /\ fired s' = gen s :: fired s.
 Proof. exact wait_released_loss. Qed.
 Print Assumptions C16_wait_returns_after_loss.
+
+(* ------------------------------------------------------------------ Run returns *)
+
+(* Run = Start, then a receive of the server's result (action ARunWait; runners = the Run calls blocked in
+   that receive).  A Run call is blocked only while its session is established or being closed ... *)
+Theorem C16_run_blocks_only_in_session : forall sw s,
+  close_takes_srv_result sw = false -> reachable sw s -> runners s <> [] -> ph s = Configured \/ ph s = Closing.
+Proof. intros sw s D R. exact (runners_only_in_session sw s D (reachable_wf sw s R)). Qed.
+Print Assumptions C16_run_blocks_only_in_session.
+
+(* ... Stop (from another thread) returns, releases the blocked Run and every Wait, and leaves the lock free ... *)
+Theorem C16_run_returns_after_stop : forall sw s,
+  close_takes_srv_result sw = false -> reachable sw s -> ph s = Configured ->
+  let s' := run sw s [AStop; IServeDone] in
+  ph s' = Idle /\ runners s' = [] /\ waiters s' = [] /\ started s' = false /\ lock_free s' = true.
+Proof. intros sw s D R. exact (run_released_stop sw s D (reachable_wf sw s R)). Qed.
+Print Assumptions C16_run_returns_after_stop.
+
+(* ... and so does a connection dropped by the runtime end *)
+Theorem C16_run_returns_after_loss : forall sw s,
+  close_takes_srv_result sw = false -> reachable sw s -> ph s = Configured -> cli_open s = true ->
+  let s' := run sw s [EConnLost; ADeliver (gen s); IServeDone] in
+  ph s' = Idle /\ runners s' = [] /\ waiters s' = [] /\ started s' = false.
+Proof. intros sw s D R. exact (run_released_loss sw s D (reachable_wf sw s R)). Qed.
+Print Assumptions C16_run_returns_after_loss.
+
+(* FALSE for the variant [srv_result_shared] (close() waits for the server loop by receiving from srvErrC, the
+   one-slot channel Run receives from).  Witness: Run on a healthy runtime, Stop from another thread.  Two
+   receivers, one value: if the teardown gets it, Stop returns and the Run call stays blocked after ANY
+   further sequence of actions; if Run gets it, Run returns and the teardown never ends: the lock is held
+   after ANY further sequence of actions (IsStarted, Stop, Start block; no close call-back). *)
+Theorem C16_run_or_stop_hangs_refuted :
+  exists l, reachable srv_result_shared (run srv_result_shared init l) /\
+    let s := run srv_result_shared init l in
+    ph s = Closing /\ runners s = [1] /\
+    (let s1 := step srv_result_shared s IServeDone in
+     ph s1 = Idle /\ forall l', In 1 (runners (run srv_result_shared s1 l'))) /\
+    (let s2 := step srv_result_shared s IRunTakes in
+     runners s2 = [] /\ forall l', lock_free (run srv_result_shared s2 l') = false).
+Proof. exact run_or_stop_hangs_refuted. Qed.
+Print Assumptions C16_run_or_stop_hangs_refuted.
 
 (* ------------------------------------------------------------------ the close notification fires once *)
 
@@ -244,7 +286,7 @@ Print Assumptions C16_stale_notification_partial.
 (* the switch settings the theorems are instantiated with *)
 Example C16_ex_fixed :
   wait_cfg_unguarded fixed = false /\ stale_close_unfiltered fixed = false /\ dead_conn_reused fixed = false /\
-  failed_start_shares_session fixed = false /\ results_sent fixed.
+  failed_start_shares_session fixed = false /\ results_sent fixed /\ close_takes_srv_result fixed = false.
 Proof. repeat split. Qed.
 
 (* a reachable state with a Start under way (hypotheses of C16_start_returns) *)
@@ -265,12 +307,12 @@ Proof. intros b H. cbn in H. repeat destruct H as [<-|H]; try contradiction; vm_
 (* the three recorded defects at the level of operations, as the driver observes them:
    pinned predicts them, fixed predicts the behaviour the property demands *)
 Example C16_ex_ops_pinned :
-  run_ops pinned init [OStart BDropAfterReg] = [[{| o_class := KBlocked; o_started := None; o_closes := 0; o_waiting := 0 |}]] /\
+  run_ops pinned init [OStart BDropAfterReg] = [[{| o_class := KBlocked; o_started := None; o_closes := 0; o_waiting := 0; o_running := 0 |}]] /\
   run_ops pinned init [OStart BRefuse; OStart BHealthy] =
-    [[{| o_class := KErr; o_started := Some false; o_closes := 1; o_waiting := 0 |};
-      {| o_class := KErr; o_started := Some false; o_closes := 2; o_waiting := 0 |}]] /\
-  In [{| o_class := KOk; o_started := Some true; o_closes := 0; o_waiting := 0 |};
-      {| o_class := KOk; o_started := Some false; o_closes := 2; o_waiting := 0 |}]
+    [[{| o_class := KErr; o_started := Some false; o_closes := 1; o_waiting := 0; o_running := 0 |};
+      {| o_class := KErr; o_started := Some false; o_closes := 2; o_waiting := 0; o_running := 0 |}]] /\
+  In [{| o_class := KOk; o_started := Some true; o_closes := 0; o_waiting := 0; o_running := 0 |};
+      {| o_class := KOk; o_started := Some false; o_closes := 2; o_waiting := 0; o_running := 0 |}]
      (run_ops pinned init [OStart BHealthy; OStopStart BHealthy]).
 Proof. vm_compute. repeat split. left. reflexivity. Qed.
 
@@ -278,8 +320,8 @@ Proof. vm_compute. repeat split. left. reflexivity. Qed.
 Example C16_ex_failed_then_start :
   (forall f, In f [BRefuse; BDropInReg; BDropAfterReg; BCfgError] ->
    forall o, In o (run_ops fixed init [OStartStart f BHealthy]) ->
-     o = [{| o_class := KOk; o_started := Some true; o_closes := 1; o_waiting := 0 |}]) /\
-  In [{| o_class := KOk; o_started := Some false; o_closes := 2; o_waiting := 0 |}]
+     o = [{| o_class := KOk; o_started := Some true; o_closes := 1; o_waiting := 0; o_running := 0 |}]) /\
+  In [{| o_class := KOk; o_started := Some false; o_closes := 2; o_waiting := 0; o_running := 0 |}]
      (run_ops shared_session init [OStartStart BCfgError BHealthy]).
 Proof.
   split.
@@ -290,19 +332,39 @@ Qed.
 (* a refused subscription with the runtime end keeping the connection: an error under fixed, blocked in the variant *)
 Example C16_ex_reject_kept_open :
   run_ops fixed init [OStart BCfgReject; OStart BHealthy] =
-    [[{| o_class := KErr; o_started := Some false; o_closes := 1; o_waiting := 0 |};
-      {| o_class := KOk; o_started := Some true; o_closes := 1; o_waiting := 0 |}]] /\
+    [[{| o_class := KErr; o_started := Some false; o_closes := 1; o_waiting := 0; o_running := 0 |};
+      {| o_class := KOk; o_started := Some true; o_closes := 1; o_waiting := 0; o_running := 0 |}]] /\
   run_ops reject_unsent init [OStart BCfgReject; OStart BHealthy] =
-    [[{| o_class := KBlocked; o_started := None; o_closes := 0; o_waiting := 0 |}]] /\
+    [[{| o_class := KBlocked; o_started := None; o_closes := 0; o_waiting := 0; o_running := 0 |}]] /\
   run_ops reject_unsent init [OStart BCfgRejectDrop] = run_ops fixed init [OStart BCfgRejectDrop].
 Proof. vm_compute. repeat split. Qed.
 
+(* Run in a thread of its own, then Stop / a drop by the runtime end: Run is blocked while the session is up
+   (o_running = 1) and has returned afterwards; in the variant one of the two hangs *)
+Example C16_ex_run :
+  run_ops fixed init [ORun BHealthy; OWait; OStop] =
+    [[{| o_class := KOk; o_started := Some true; o_closes := 0; o_waiting := 0; o_running := 1 |};
+      {| o_class := KReturned; o_started := Some true; o_closes := 0; o_waiting := 1; o_running := 1 |};
+      {| o_class := KReturned; o_started := Some false; o_closes := 1; o_waiting := 0; o_running := 0 |}]] /\
+  run_ops fixed init [ORun BHealthy; OLose; ORun BRefuse] =
+    [[{| o_class := KOk; o_started := Some true; o_closes := 0; o_waiting := 0; o_running := 1 |};
+      {| o_class := KReturned; o_started := Some false; o_closes := 1; o_waiting := 0; o_running := 0 |};
+      {| o_class := KErr; o_started := Some false; o_closes := 2; o_waiting := 0; o_running := 0 |}]] /\
+  In [{| o_class := KOk; o_started := Some true; o_closes := 0; o_waiting := 0; o_running := 1 |};
+      {| o_class := KReturned; o_started := Some false; o_closes := 1; o_waiting := 0; o_running := 1 |};
+      {| o_class := KOk; o_started := Some true; o_closes := 1; o_waiting := 0; o_running := 1 |}]
+     (run_ops srv_result_shared init [ORun BHealthy; OStop; OStart BHealthy]) /\
+  In [{| o_class := KOk; o_started := Some true; o_closes := 0; o_waiting := 0; o_running := 1 |};
+      {| o_class := KBlocked; o_started := None; o_closes := 0; o_waiting := 0; o_running := 0 |}]
+     (run_ops srv_result_shared init [ORun BHealthy; OStop; OStart BHealthy]).
+Proof. vm_compute. repeat split; auto. Qed.
+
 Example C16_ex_ops_fixed :
-  run_ops fixed init [OStart BDropAfterReg] = [[{| o_class := KErr; o_started := Some false; o_closes := 1; o_waiting := 0 |}]] /\
+  run_ops fixed init [OStart BDropAfterReg] = [[{| o_class := KErr; o_started := Some false; o_closes := 1; o_waiting := 0; o_running := 0 |}]] /\
   run_ops fixed init [OStart BRefuse; OStart BHealthy] =
-    [[{| o_class := KErr; o_started := Some false; o_closes := 1; o_waiting := 0 |};
-      {| o_class := KOk; o_started := Some true; o_closes := 1; o_waiting := 0 |}]] /\
+    [[{| o_class := KErr; o_started := Some false; o_closes := 1; o_waiting := 0; o_running := 0 |};
+      {| o_class := KOk; o_started := Some true; o_closes := 1; o_waiting := 0; o_running := 0 |}]] /\
   (forall o, In o (run_ops fixed init [OStart BHealthy; OStopStart BHealthy]) ->
-     o = [{| o_class := KOk; o_started := Some true; o_closes := 0; o_waiting := 0 |};
-          {| o_class := KOk; o_started := Some true; o_closes := 1; o_waiting := 0 |}]).
+     o = [{| o_class := KOk; o_started := Some true; o_closes := 0; o_waiting := 0; o_running := 0 |};
+          {| o_class := KOk; o_started := Some true; o_closes := 1; o_waiting := 0; o_running := 0 |}]).
 Proof. vm_compute. repeat split. intros o [<-|[<-|[]]]; reflexivity. Qed.
